@@ -1701,15 +1701,16 @@ def r12(facts):
     out = []
     n = 0
     def ptr_steps(e, pid):
-        """number of unit advances of pointer pid in expression e; (constant steps, [calls that receive pid])"""
+        """number of unit advances of pointer pid (an id or a set of ids that name one pointer) in expression e; (constant steps, [calls that receive pid])"""
         steps, calls = 0, []
+        pids_ = pid if isinstance(pid, (set, frozenset)) else {pid}
         for y in walk(e):
             if not isinstance(y, dict):
                 continue
-            if is_incdec(y) and y.get('op') == '++' and strip(y['e']).get('id') == pid:
+            if is_incdec(y) and y.get('op') == '++' and strip(y['e']).get('id') in pids_:
                 steps += 1
             ap = assign_parts(y)
-            if ap and ap[2] == '+=' and strip(ap[0]).get('id') == pid:
+            if ap and ap[2] == '+=' and strip(ap[0]).get('id') in pids_:
                 c = const_of(ap[1])
                 if c is not None:
                     steps += c
@@ -1719,7 +1720,18 @@ def r12(facts):
         return steps, calls
     def writer_summary(cf, pi):
         """greatest number of advances of the pi-th (pointer) parameter over all paths of cf, or (None, reason)"""
-        pid = cf.params[pi]['id']
+        # the parameter and the pointer locals that start as copies of it (`uint8_t *p = out; *p++ = ..`) are one pointer here: every
+        # advance of any of them is a byte written behind `out`
+        pid = {cf.params[pi]['id']}
+        grew = True
+        while grew:
+            grew = False
+            for x in walk(cf.tree):
+                if isinstance(x, dict) and x.get('k') == 'DeclStmt':
+                    for v in x.get('decls', []):
+                        if v['id'] not in pid and v.get('init') is not None and strip(v['init']).get('k') == 'DeclRefExpr' and strip(v['init']).get('id') in pid and (v.get('t') or {}).get('p'):
+                            pid.add(v['id'])
+                            grew = True
         def adv(t):
             if t is None:
                 return 0, None
